@@ -156,9 +156,10 @@ func (s *Sim) wait() error {
 			}
 			return nil
 		case <-tick.C:
-			if s.stopped || s.W.S.Current() != "" {
+			if s.stopped {
 				continue
 			}
+			// (also while a process is "current": the one that was released may be the one that exited)
 			for _, st := range s.WF.States() {
 				if st == workflow.StateShutdown {
 					return fmt.Errorf("sim: processes did not come to rest (a process has shut down; current=%q)", s.W.S.Current())
